@@ -166,31 +166,30 @@ func (x *vExpectC26) replacements(st *vStateC26, id string) []string {
 	return out
 }
 
-// checkState is the invariant of every crash / fault state. It returns the number of
-// snapshots for which both the old file and its replacement exist (the cut fell between
-// the new Save and the old Remove).
-func (x *vExpectC26) checkState(st *vStateC26) (both int, err error) {
+// checkState is the invariant of every crash / fault state. It returns the snapshots for
+// which both the old file and its replacement exist in that state.
+func (x *vExpectC26) checkState(st *vStateC26) (both []string, err error) {
 	for id, msg := range st.Unloadable {
-		return 0, fmt.Errorf("snapshot file %s does not load: %s", id[:8], msg)
+		return nil, fmt.Errorf("snapshot file %s does not load: %s", id[:8], msg)
 	}
 	for id := range x.Before {
 		_, present := st.Snaps[id]
 		repl := x.replacements(st, id)
 		for _, r := range repl {
 			if !st.RootOK[r] {
-				return 0, fmt.Errorf("replacement %s of snapshot %s exists but its root tree %v cannot be loaded", r[:8], id[:8], st.Snaps[r].Tree)
+				return nil, fmt.Errorf("replacement %s of snapshot %s exists but its root tree %v cannot be loaded", r[:8], id[:8], st.Snaps[r].Tree)
 			}
 		}
 		switch {
 		case present && len(repl) > 0:
-			both++
+			both = append(both, id)
 		case present:
 		case x.MustStay[id]:
-			return 0, fmt.Errorf("snapshot %s is gone although the command must keep it (selected=%v)", id[:8], x.Selected[id])
+			return nil, fmt.Errorf("snapshot %s is gone although the command must keep it (selected=%v)", id[:8], x.Selected[id])
 		case len(repl) > 0:
 		case x.MayVanish[id]:
 		default:
-			return 0, fmt.Errorf("snapshot %s is gone and no snapshot with original=%s exists: neither S nor S'", id[:8], x.WantOrig[id][:8])
+			return nil, fmt.Errorf("snapshot %s is gone and no snapshot with original=%s exists: neither S nor S'", id[:8], x.WantOrig[id][:8])
 		}
 	}
 	return both, nil
@@ -406,7 +405,7 @@ func TestVerifC26RewriteCrashPrefixes(t *testing.T) {
 
 func vOneCommandC26(t *rapid.T, st *verifkit.Stats, ce *vEnv, models map[string]vTree, src string, ci int) {
 	lbl := func(s string) string { return fmt.Sprintf("c%d.%s", ci, s) }
-	c := &vCmdC26{Cmd: rapid.SampledFrom([]string{"tag", "rewrite", "rewrite", "repair"}).Draw(t, lbl("cmd"))}
+	c := &vCmdC26{Cmd: rapid.SampledFrom([]string{"tag", "rewrite", "rewrite", "repair", "repair"}).Draw(t, lbl("cmd"))}
 
 	// repair snapshots works on a damaged repository: remove one pack and make the index correct again
 	// ("The command depends on a correct index, thus make sure to run repair index first")
@@ -576,7 +575,7 @@ func vOneCommandC26(t *rapid.T, st *verifkit.Stats, ce *vEnv, models map[string]
 	}
 
 	// ---- every prefix of the Save/Remove log is a crash state
-	bothStates := 0
+	bothAt := map[string]int{} // snapshot -> number of crash states holding both it and its replacement
 	for k := 0; k <= len(log); k++ {
 		s := ce.store.StateAt(k)
 		s.DropLocks()
@@ -591,8 +590,8 @@ func vOneCommandC26(t *rapid.T, st *verifkit.Stats, ce *vEnv, models map[string]
 		if err != nil {
 			t.Fatalf("crash after %d of %d operations: %v\nstate:\n%s%s", k, len(log), err, vDescribeC26(cs), ctxt())
 		}
-		if both > 0 && k < len(log) {
-			bothStates++
+		for _, id := range both {
+			bothAt[id]++
 		}
 	}
 
@@ -610,6 +609,13 @@ func vOneCommandC26(t *rapid.T, st *verifkit.Stats, ce *vEnv, models map[string]
 	fstatus, fnodes, err := vTreesC26(ce, ftrees)
 	if err != nil {
 		t.Fatal(err)
+	}
+	// non-trivial: some crash state fell between the Save of a replacement and the Remove of the snapshot it replaces
+	bothStates := 0
+	for id, n := range bothAt {
+		if _, stillThere := final.Snaps[id]; !stillThere {
+			bothStates += n
+		}
 	}
 	claimed := map[string]string{} // new snapshot -> the old one it replaces
 	ffail := func(format string, a ...any) {
@@ -863,12 +869,14 @@ func vOpsStringC26(log []vbe.Op) string {
 }
 
 // TestVerifC26ProbeUploaderPanic documents a robustness defect found while building this check (not part of the
-// property: no snapshot is lost). Run the test binary with VERIF_C26_PROBE=1 to see it: `rewrite --exclude` over
-// several snapshots selected by filter, the backend fails the first pack upload -> the process panics with
-// "uploader already started" in the snapshot-walk goroutine instead of returning the backend error.
+// property: no snapshot is lost). Run the test binary with VERIF_C26_PROBE=damage|cancel|failfrom: `rewrite --exclude`
+// over several snapshots selected by filter; when the tree rewrite of one snapshot fails inside WithBlobUploader
+// (tree unreadable, context cancelled) the uploader state is not reset, ForAllSnapshots still hands the next
+// already-loaded snapshot to the callback, and the process panics with "uploader already started" in the
+// snapshot-walk goroutine instead of returning the error.
 func TestVerifC26ProbeUploaderPanic(t *testing.T) {
 	if os.Getenv("VERIF_C26_PROBE") == "" {
-		t.Skip("set VERIF_C26_PROBE=1 to run")
+		t.Skip("set VERIF_C26_PROBE=damage|cancel|failfrom to run")
 	}
 	vSetup(t)
 	e, err := vNewEnv(true)
@@ -889,10 +897,21 @@ func TestVerifC26ProbeUploaderPanic(t *testing.T) {
 	}
 	e.store.DropLocks()
 	f := vbe.NoFaults()
-	f.FailFrom = 1 // op 0 is the lock file
+	ctx, cancel := context.WithCancel(context.Background())
+	defer cancel()
+	switch os.Getenv("VERIF_C26_PROBE") {
+	case "cancel": // the run is cancelled when the first pack is uploaded (op 0 is the lock file)
+		f.CancelAt, f.Cancel = 1, cancel
+	case "failfrom": // the backend fails every write from the first pack upload on
+		f.FailFrom = 1
+	default: // "damage": the pack files are gone, so no tree can be loaded
+		for _, p := range e.store.Keys(backend.PackFile) {
+			e.store.Del(backend.PackFile, p)
+		}
+	}
 	e.store.StartRecording(f)
 	c := &vCmdC26{Cmd: "rewrite", Exclude: []string{"beta"}, Forget: true}
-	_, rerr := c.run(context.Background(), e)
+	_, rerr := c.run(ctx, e)
 	e.store.StopRecording()
 	t.Logf("rewrite returned: %v", rerr)
 	if rerr == nil {
